@@ -92,6 +92,72 @@ static void handler(vh::Reader& r, vh::Out& o)
 		auto f = vh::fun1(vh::parse_fexpr(r));
 		o.f(Find_Epsilon(f, a, b, p));
 	}
+	else if(op == "seq")
+	{
+		// several calls in one process (see ocaml/C03_driver.ml for the grammar); each is answered with
+		// value, warning flag, number of integrand evaluations, smallest and largest abscissa
+		long k		= r.integer();
+		double last = 0.0;
+		auto eps_tok = [&]() {
+			if(r.i < r.t.size() && r.t[r.i] == "@")
+			{
+				r.i++;
+				return last;
+			}
+			return r.num();
+		};
+		for(long j = 0; j < k; j++)
+		{
+			std::string c = r.word();
+			double a = r.num(), b = r.num(), eps = 0, prec = 0;
+			int depth = 0;
+			if(c == "I")
+			{
+				eps	  = eps_tok();
+				depth = (int) r.integer();
+			}
+			else if(c == "D")
+				eps = eps_tok();
+			else if(c == "F")
+				prec = r.num();
+			else if(c != "M")
+			{
+				o.w("HARNESSERR unknown_call");
+				return;
+			}
+			skip_family(r);
+			auto f = vh::fun1(vh::parse_fexpr(r));
+			std::vector<double> trace;
+			auto g = [&](double x) {
+				trace.push_back(x);
+				return f(x);
+			};
+			diag_reset();
+			double v;
+			if(c == "I")
+				v = Integrate(g, a, b, eps, depth);
+			else if(c == "D")
+				v = Integrate(g, a, b, eps);
+			else if(c == "M")
+				v = Integrate(g, a, b, "Adaptive-Simpson");
+			else
+				v = last = Find_Epsilon(g, a, b, prec);
+			bool warn = diag_has("did not converge");
+			o.f(v);
+			o.i(warn ? 1 : 0);
+			o.i((long) trace.size());
+			double lo = INFINITY, hi = -INFINITY;
+			for(double x : trace)
+			{
+				if(x < lo)
+					lo = x;
+				if(x > hi)
+					hi = x;
+			}
+			o.f(lo);
+			o.f(hi);
+		}
+	}
 	else
 		o.w("HARNESSERR unknown_op");
 }
